@@ -211,6 +211,49 @@ def run_case(case, rec):
             rec.violation('body-envelope', 'consumed %r/%d channel %r/%r'
                           % (n, len(m.value), ch2, ch), wit)
             return
+        # the same frame with MORE frames behind it in the receive buffer -
+        # another body on the same channel (a message split over several
+        # body frames), a heartbeat - still decodes to this body alone
+        if len(b) <= 70000 and rec.counters.get('bodies_ok', 0) % 3 == 0:
+            follow = m.value if len(m.value) < 5000 else \
+                struct.pack('>BHI', 3, ch, 3) + b'abc\xce'
+            for tail in (follow, b'\x08\x00\x00\x00\x00\x00\x00\xce',
+                         follow + follow):
+                u2 = common.lib_unmarshal(m.value + tail)
+                if not u2.ok or u2.value[0] != len(m.value) or \
+                        bytes(getattr(u2.value[2], 'value', b'')) != bytes(b) \
+                        or u2.value[1] != ch:
+                    rec.violation('body-depends-on-following-frames',
+                                  'a body frame of %d bytes followed by '
+                                  'another frame on the same channel decodes '
+                                  'to %s' % (len(b), 'consumed %r, %d bytes'
+                                             % (u2.value[0], len(getattr(
+                                                 u2.value[2], 'value', b'')))
+                                             if u2.ok else u2.describe()),
+                                  wit)
+                    return
+            rec.count('bodies_followed_by_frames_ok')
+            # ... and from a receive buffer (bytearray) that is then reused
+            ba = bytearray(m.value)
+            u3 = common.lib_unmarshal(ba)
+            if u3.ok:
+                was = bytes(u3.value[2].value)
+                try:
+                    ba[:] = b'\x55' * len(ba)
+                    del ba[:]
+                except BufferError as e:
+                    rec.violation('receive-buffer-pinned-by-result',
+                                  'the receive buffer cannot be reused after '
+                                  'a body was decoded from it: %r' % (e,),
+                                  wit)
+                    return
+                if bytes(u3.value[2].value) != was or was != bytes(b):
+                    rec.violation('body-aliases-receive-buffer',
+                                  'a body decoded from a bytearray receive '
+                                  'buffer changed when the buffer was '
+                                  'reused', wit)
+                    return
+                rec.count('bodies_from_reused_buffer_ok')
         rec.count('bodies_ok')
         if len(b) <= 4096 and rec.counters['bodies_ok'] % 7 == 0:
             _RETAINED.add(g, lambda o: (bytes(o.value), len(o)),
